@@ -183,44 +183,6 @@ theorem accumulate_agrees_with_unsorted (l : List (Key × EntryRes)) (hn : nodup
   have := accumulateIn_order_independent_up_to_error_order (sortK l) l hp hn'
   exact ⟨this.1, this.2.1, this.2.2.1⟩
 
-/-! ### per-site NAMES of `accumulate_order_independent` (documentation, not additional guarantees)
-
-Audit MEDIUM-1: the five theorems below are ONE statement (`accumulate l₁ = accumulate l₂`,
-i.e. `accumulate_order_independent`) under the names of the Go loops that have this shape after
-their fixes: `invertSplit`, `wrapDisabled`, `MergeExp.BindingPath`, `CallGraphStage/Pipeline.unsplit`,
-`Node.resolveInputs` / `TopNode.resolveMap`.  Nothing in Lean distinguishes the sites: what ties
-each Go function to `accumulate` is the differential `C10.accum` (the real function's per-entry
-contributions fed to the model, for the first four) and the provocations (all of them).  They
-count as one guarantee. -/
-
-/-- `invertSplit` (split_expression.go, MapExp branch; fix 3cfd1e8) -/
-theorem invertSplit_order_independent (l₁ l₂ : List (Key × EntryRes)) (h : l₁.Perm l₂)
-    (hn : nodupKeys l₁ = true) :
-    accumulate l₁ = accumulate l₂ ∧
-      errorListText (accumulate l₁).errs = errorListText (accumulate l₂).errs := by
-  rw [accumulate_order_independent l₁ l₂ h hn]; exact ⟨rfl, rfl⟩
-
-/-- `wrapDisabled` (resolve_stage.go, MapExp branch; fix 3614e32) -/
-theorem wrapDisabled_order_independent (l₁ l₂ : List (Key × EntryRes)) (h : l₁.Perm l₂)
-    (hn : nodupKeys l₁ = true) : accumulate l₁ = accumulate l₂ :=
-  accumulate_order_independent l₁ l₂ h hn
-
-/-- `MergeExp.BindingPath`, static merge over a map (merge_exp.go; fix 4931c7d) -/
-theorem mergeBindingPath_order_independent (l₁ l₂ : List (Key × EntryRes)) (h : l₁.Perm l₂)
-    (hn : nodupKeys l₁ = true) : accumulate l₁ = accumulate l₂ :=
-  accumulate_order_independent l₁ l₂ h hn
-
-/-- `CallGraphStage.unsplit` / `CallGraphPipeline.unsplit`, the loop over the inputs
-(resolve_stage.go, resolve_pipeline.go; fixes 7ae87c8, 922daa0) -/
-theorem unsplit_order_independent (l₁ l₂ : List (Key × EntryRes)) (h : l₁.Perm l₂)
-    (hn : nodupKeys l₁ = true) : accumulate l₁ = accumulate l₂ :=
-  accumulate_order_independent l₁ l₂ h hn
-
-/-- `Node.resolveInputs` and `TopNode.resolveMap` (core/resolve.go; fixes 7218313,
-d4fb478): `allReady` is `done`, the MarshalerMap is `vals` -/
-theorem resolveInputs_order_independent (l₁ l₂ : List (Key × EntryRes)) (h : l₁.Perm l₂)
-    (hn : nodupKeys l₁ = true) : accumulate l₁ = accumulate l₂ :=
-  accumulate_order_independent l₁ l₂ h hn
 
 /-- `convertToExp` on a LazyArgumentMap / MarshalerMap (core/runtime.go; fix 218731a):
 the entry named in the returned error, and the partial result, are those of the
@@ -297,6 +259,8 @@ receiver type).  Entry = `mode function:form expression [auto class]`. -/
 theorem iterator_forms_recognised : Gen.c10IterFormsRecognised = [
     "typed T.Keys:maps.Keys maps.Keys(t.m) [other]",
     "typed var pkgLevel:maps.Keys slices.Collect(maps.Keys(m)) [other]",
+    "typed generic:range m [other]",
+    "typed anyParam:sync.Map.Range w.Range [other]",
     "typed f:maps.Keys slices.Collect(maps.Keys(m)) [other]",
     "typed f:maps.Keys slices.Sorted(maps.Keys(m)) [keys-collected-then-sorted]",
     "typed f:maps.Keys slices.SortedFunc(maps.Keys(m), strings.Compare) [keys-collected-then-sorted]",
@@ -314,6 +278,7 @@ theorem iterator_forms_recognised : Gen.c10IterFormsRecognised = [
     "typed f:maps.Keys slices.Sorted(maps.Keys(m)) [keys-collected-then-sorted]",
     "untyped T.Keys:maps.Keys maps.Keys(t.m) [other]",
     "untyped var pkgLevel:maps.Keys slices.Collect(maps.Keys(m)) [other]",
+    "untyped generic:range m [other]",
     "untyped f:maps.Keys slices.Collect(maps.Keys(m)) [other]",
     "untyped f:maps.Keys slices.Sorted(maps.Keys(m)) [keys-collected-then-sorted]",
     "untyped f:maps.Keys slices.SortedFunc(maps.Keys(m), strings.Compare) [keys-collected-then-sorted]",
@@ -328,6 +293,15 @@ theorem iterator_forms_recognised : Gen.c10IterFormsRecognised = [
     "untyped f:range m [other]",
     "untyped f:maps.Keys maps.Keys [other]",
     "untyped f:maps.Keys slices.Sorted(maps.Keys(m)) [keys-collected-then-sorted]"] := by rfl
+
+/-- Regenerated obligation (audit pass 2, MEDIUM-2): no file of martian/syntax or martian/core
+uses a form of map iteration the site scanner does not follow — a DOT-import of `maps`, `slices`,
+`reflect`, `sync`, `iter` or the x/exp versions (calls would be bare identifiers).  A `range`
+over a TYPE PARAMETER with a map core type and `sync.Map.Range` promoted from an embedded
+`sync.Map` are followed (see the `generic` / `anyParam` entries above); a type parameter whose
+constraint does not pin a map is listed as `range-untyped`. -/
+theorem no_unsupported_iteration_form :
+    Gen.c10UnsupportedForms_extracted = true ∧ Gen.c10UnsupportedForms = [] := by decide
 
 /-- the vanished-site obligation is about a non-empty reviewed list -/
 example : ["core/fork.go:ForkId.expandStaticForkPart:range keyMap#2"] ≠ ([] : List String) := by decide
@@ -433,25 +407,6 @@ theorem callModeIn_order_dependent :
     (callModeIn [(1, some Mode.null), (2, none)] ≠ callModeIn [(2, (none : Option Mode)), (1, some Mode.null)]) := by
   decide
 
-/-- `SplitExp.InnerMapSource` over a map literal as the code is now: a fold (keep the
-first source, replace it by a placeholder on a mismatch) over the sorted keys -/
-theorem innerMapSource_order_independent {V β : Type} (f : β → Key × V → β) (init : β)
-    (l₁ l₂ : List (Key × V)) (h : l₁.Perm l₂) (hn : nodupKeys l₁ = true) :
-    foldSorted f init l₁ = foldSorted f init l₂ := foldSorted_order_independent f init l₁ l₂ h hn
-
-/-- `RefExp.FindRefs` over the fork indices as the code is now: the references of each
-index source appended in the order of the sorted calls (key = call id, declaration id;
-assumed distinct) -/
-theorem refFindRefs_order_independent {V R : Type} (f : Key × V → List R) (l₁ l₂ : List (Key × V))
-    (h : l₁.Perm l₂) (hn : nodupKeys l₁ = true) : (sortK l₁).flatMap f = (sortK l₂).flatMap f := by
-  rw [sort_entries_order_independent l₁ l₂ h hn]
-
-/-- `resolveDisableMap`, all entries true, as the code is now: the entry with the
-smallest key stands for all -/
-theorem disableAllTrue_order_independent {V : Type} (l₁ l₂ : List (Key × V)) (h : l₁.Perm l₂)
-    (hn : nodupKeys l₁ = true) : (sortK l₁).head? = (sortK l₂).head? := by
-  rw [sort_entries_order_independent l₁ l₂ h hn]
-
 /-- GENERAL (return the first match; matches agree): `for _, e := range m { if r := f(e); r != nil { return r } }`
 gives the same result in every order EXACTLY WHEN any two entries that match agree on the
 result - in particular when at most one entry matches (`Node.find`: fully qualified names
@@ -480,19 +435,6 @@ their number and membership (`checkSplitLength`, `mapKeyRange.Allow` / `Length`)
 theorem unknownKeys_order_independent (k₁ k₂ : List Key) (h : k₁.Perm k₂) :
     sortKeys k₁ = sortKeys k₂ ∧ k₁.length = k₂.length ∧ ∀ x, k₁.contains x = k₂.contains x :=
   ⟨sort_keys_order_independent k₁ k₂ h, h.length_eq, fun x => contains_perm h x⟩
-
-/-- `Fork.getStages` as the code is now (core/stage.go): the stages of the subnodes
-appended in sorted order of the subnode names (the `stages` list of `_perf`) -/
-theorem getStages_order_independent {V R : Type} (f : Key × V → List R) (l₁ l₂ : List (Key × V))
-    (h : l₁.Perm l₂) (hn : nodupKeys l₁ = true) : (sortK l₁).flatMap f = (sortK l₂).flatMap f :=
-  refFindRefs_order_independent f l₁ l₂ h hn
-
-/-- `Fork.verifyPipelineOutput` as the code is now: the message of the first invalid
-entry in sorted key order (the `_errors` text of a pipeline fork) -/
-theorem verifyPipelineOutput_order_independent {W E : Type} (conv : Key → W → Except E Bytes)
-    (l₁ l₂ : List (Key × W)) (h : l₁.Perm l₂) (hn : nodupKeys l₁ = true) :
-    (firstFailure conv l₁).2 = (firstFailure conv l₂).2 := by
-  rw [convertToExp_order_independent conv l₁ l₂ h hn]
 
 /-! Non-vacuity of round 2. -/
 example : [1, 2, 3].findSome? (fun n => if n = 2 then some (n * 10) else none) = some 20 := by decide
@@ -615,5 +557,89 @@ example : StaticKnown [Root.static (.arr 2), Root.dyn, Root.dyn] ∧
       · exact ⟨.idx 0, [.idx 1, .idx 2], by simp [h1, h2, Elems.parts]; decide⟩
       · exact ⟨.idx 0, [], by simp [h1, h2, Elems.parts]⟩
     · exact ⟨.idx 0, [.idx 1], by simp [h1, Elems.parts]; decide⟩
+
+
+/-! ### per-site NAMES of the general theorems (documentation of the model, not guarantees)
+
+Audit MEDIUM-1 (both passes): the theorems of this section are ALIASES.  Each is the statement
+`g (sortK l₁) = g (sortK l₂)` for some function `g` — true for EVERY `g` by
+`function_of_sorted_order_independent` below, because the model loops over the SORTED keys —
+written once more under the name of a Go loop that has this shape after its fix:
+`invertSplit`, `wrapDisabled`, `MergeExp.BindingPath`, `CallGraphStage/Pipeline.unsplit`,
+`Node.resolveInputs` / `TopNode.resolveMap` (= `accumulate_order_independent`);
+`SplitExp.InnerMapSource` (= `foldSorted_order_independent`); `RefExp.FindRefs` over the fork
+indices and `Fork.getStages` (the same statement twice); `resolveDisableMap` all-true;
+`Fork.verifyPipelineOutput` (= the second half of `convertToExp_order_independent`).  Nothing
+in Lean mentions the Go function: what ties a site to its shape is the reviewer's reading of the
+loop, the differentials (`C10.accum` for the first four, `C10.firstfail`) and the provocations.
+They document which site was read as which shape and do not count as guarantees. -/
+
+/-- the one fact behind every alias: whatever is computed from the SORTED entries does not
+depend on the order in which the map handed them over -/
+theorem function_of_sorted_order_independent {V β : Type} (g : List (Key × V) → β)
+    (l₁ l₂ : List (Key × V)) (h : l₁.Perm l₂) (hn : nodupKeys l₁ = true) :
+    g (sortK l₁) = g (sortK l₂) := by
+  rw [sort_entries_order_independent l₁ l₂ h hn]
+
+/-- `invertSplit` (split_expression.go, MapExp branch; fix 3cfd1e8) -/
+theorem invertSplit_order_independent (l₁ l₂ : List (Key × EntryRes)) (h : l₁.Perm l₂)
+    (hn : nodupKeys l₁ = true) :
+    accumulate l₁ = accumulate l₂ ∧
+      errorListText (accumulate l₁).errs = errorListText (accumulate l₂).errs := by
+  rw [accumulate_order_independent l₁ l₂ h hn]; exact ⟨rfl, rfl⟩
+
+/-- `wrapDisabled` (resolve_stage.go, MapExp branch; fix 3614e32) -/
+theorem wrapDisabled_order_independent (l₁ l₂ : List (Key × EntryRes)) (h : l₁.Perm l₂)
+    (hn : nodupKeys l₁ = true) : accumulate l₁ = accumulate l₂ :=
+  accumulate_order_independent l₁ l₂ h hn
+
+/-- `MergeExp.BindingPath`, static merge over a map (merge_exp.go; fix 4931c7d) -/
+theorem mergeBindingPath_order_independent (l₁ l₂ : List (Key × EntryRes)) (h : l₁.Perm l₂)
+    (hn : nodupKeys l₁ = true) : accumulate l₁ = accumulate l₂ :=
+  accumulate_order_independent l₁ l₂ h hn
+
+/-- `CallGraphStage.unsplit` / `CallGraphPipeline.unsplit`, the loop over the inputs
+(resolve_stage.go, resolve_pipeline.go; fixes 7ae87c8, 922daa0) -/
+theorem unsplit_order_independent (l₁ l₂ : List (Key × EntryRes)) (h : l₁.Perm l₂)
+    (hn : nodupKeys l₁ = true) : accumulate l₁ = accumulate l₂ :=
+  accumulate_order_independent l₁ l₂ h hn
+
+/-- `Node.resolveInputs` and `TopNode.resolveMap` (core/resolve.go; fixes 7218313,
+d4fb478): `allReady` is `done`, the MarshalerMap is `vals` -/
+theorem resolveInputs_order_independent (l₁ l₂ : List (Key × EntryRes)) (h : l₁.Perm l₂)
+    (hn : nodupKeys l₁ = true) : accumulate l₁ = accumulate l₂ :=
+  accumulate_order_independent l₁ l₂ h hn
+
+/-- `SplitExp.InnerMapSource` over a map literal as the code is now: a fold (keep the
+first source, replace it by a placeholder on a mismatch) over the sorted keys -/
+theorem innerMapSource_order_independent {V β : Type} (f : β → Key × V → β) (init : β)
+    (l₁ l₂ : List (Key × V)) (h : l₁.Perm l₂) (hn : nodupKeys l₁ = true) :
+    foldSorted f init l₁ = foldSorted f init l₂ := foldSorted_order_independent f init l₁ l₂ h hn
+
+/-- `RefExp.FindRefs` over the fork indices as the code is now: the references of each
+index source appended in the order of the sorted calls (key = call id, declaration id;
+assumed distinct) -/
+theorem refFindRefs_order_independent {V R : Type} (f : Key × V → List R) (l₁ l₂ : List (Key × V))
+    (h : l₁.Perm l₂) (hn : nodupKeys l₁ = true) : (sortK l₁).flatMap f = (sortK l₂).flatMap f := by
+  rw [sort_entries_order_independent l₁ l₂ h hn]
+
+/-- `resolveDisableMap`, all entries true, as the code is now: the entry with the
+smallest key stands for all -/
+theorem disableAllTrue_order_independent {V : Type} (l₁ l₂ : List (Key × V)) (h : l₁.Perm l₂)
+    (hn : nodupKeys l₁ = true) : (sortK l₁).head? = (sortK l₂).head? := by
+  rw [sort_entries_order_independent l₁ l₂ h hn]
+
+/-- `Fork.getStages` as the code is now (core/stage.go): the stages of the subnodes
+appended in sorted order of the subnode names (the `stages` list of `_perf`) -/
+theorem getStages_order_independent {V R : Type} (f : Key × V → List R) (l₁ l₂ : List (Key × V))
+    (h : l₁.Perm l₂) (hn : nodupKeys l₁ = true) : (sortK l₁).flatMap f = (sortK l₂).flatMap f :=
+  refFindRefs_order_independent f l₁ l₂ h hn
+
+/-- `Fork.verifyPipelineOutput` as the code is now: the message of the first invalid
+entry in sorted key order (the `_errors` text of a pipeline fork) -/
+theorem verifyPipelineOutput_order_independent {W E : Type} (conv : Key → W → Except E Bytes)
+    (l₁ l₂ : List (Key × W)) (h : l₁.Perm l₂) (hn : nodupKeys l₁ = true) :
+    (firstFailure conv l₁).2 = (firstFailure conv l₂).2 := by
+  rw [convertToExp_order_independent conv l₁ l₂ h hn]
 
 end Props.C10
